@@ -1,6 +1,7 @@
 ----------------------------- MODULE Export_C12 -----------------------------
 EXTENDS U_C12, Json, IOUtils
-ASSUME JsonSerialize(IOEnv.JASM_OUT, [m |-> Universe, n |-> UniverseN])
+UR == INSTANCE U_Range
+ASSUME JsonSerialize(IOEnv.JASM_OUT, [m |-> Universe, n |-> UniverseN, r |-> UR!UniverseRange])
 VARIABLE x
 Init == x = 0
 Next == x' = x
